@@ -104,9 +104,6 @@ func NewUnsignedTransaction(outputs []*wire.TxOut, feeRatePerKb btcutil.Amount,
 		if err != nil {
 			return nil, err
 		}
-		if inputAmount < targetAmount+targetFee {
-			return nil, insufficientFundsError{}
-		}
 
 		// We count the types of inputs, which we'll use to estimate
 		// the vsize of the transaction.
@@ -132,6 +129,13 @@ func NewUnsignedTransaction(outputs []*wire.TxOut, feeRatePerKb btcutil.Amount,
 		maxRequiredFee := txrules.FeeForSerializeSize(feeRatePerKb, maxSignedSize)
 		remainingAmount := inputAmount - targetAmount
 		if remainingAmount < maxRequiredFee {
+			// The source could not even satisfy the previous
+			// target, so it has nothing more to offer, and what
+			// it returned does not cover the fee required for
+			// these inputs.
+			if inputAmount < targetAmount+targetFee {
+				return nil, insufficientFundsError{}
+			}
 			targetFee = maxRequiredFee
 			continue
 		}
